@@ -10,6 +10,8 @@ import Stevia.Generated.Facts
 import Stevia.Proofs.ExecInv
 import Stevia.Proofs.BytesRT
 import Stevia.Model.ArraySetLayout
+import Stevia.Proofs.GenTreeRefine32
+import Stevia.Proofs.GenTreeRefine8
 
 namespace Stevia.C10
 open Stevia
@@ -134,5 +136,35 @@ theorem source_facts_are_documented_format :
     Facts.hsetRegisters = ["Bucket", "Next"] ∧ Facts.hsetInit = ["0", "capacity", "1", "1"] ∧
     Facts.hsetNodeBase = 1 ∧ Facts.hsetBucketBase = 0 := by
   decide
+
+/-! ### Tie through the translator: what the source writes is the documented layout -/
+
+/-- `avl_tree.rs`: after the translated `from_bytes_mut` + `insert` / `remove` on the layout of a reachable state the
+    registers are exactly the layout (`Tree.image`) of a reachable state — the format is preserved by the code as
+    written, slot for slot and register for register. -/
+theorem translated_source_keeps_format_u32 (kd : α) (vd : β) (s : Tree α β) (h : Tree.Reach cfgU32 s) (k : α) (v : β) :
+    (∃ s' r, Tree.Reach cfgU32 s' ∧
+      (Gen32.insert (Imp.dflt kd vd) (Gen32.from_bytes_mut (Imp.dflt kd vd) (s.image cfgU32 kd vd)) k v).getD
+          (Gen32.from_bytes_mut (Imp.dflt kd vd) (s.image cfgU32 kd vd), none) = (s'.image cfgU32 kd vd, r)) ∧
+    (∃ s' r, Tree.Reach cfgU32 s' ∧
+      Gen32.remove (Imp.dflt kd vd) (Gen32.from_bytes_mut (Imp.dflt kd vd) (s.image cfgU32 kd vd)) k
+        = (s'.image cfgU32 kd vd, r)) := by
+  obtain ⟨s1, r1, h1, _, e1⟩ := Gen32.transition_insert kd vd s h k v
+  obtain ⟨s2, r2, h2, _, e2⟩ := Gen32.transition_remove kd vd s h k
+  exact ⟨⟨s1, r1, h1, e1⟩, ⟨s2, r2, h2, e2⟩⟩
+
+/-- `u8_avl_tree.rs`: after the translated `from_bytes_mut` + `insert` / `remove` on the layout of a reachable state the
+    registers are exactly the layout (`Tree.image`) of a reachable state — the format is preserved by the code as
+    written, slot for slot and register for register. -/
+theorem translated_source_keeps_format_u8 (kd : α) (vd : β) (s : Tree α β) (h : Tree.Reach cfgU8 s) (k : α) (v : β) :
+    (∃ s' r, Tree.Reach cfgU8 s' ∧
+      (Gen8.insert (Imp.dflt kd vd) (Gen8.from_bytes_mut (Imp.dflt kd vd) (s.image cfgU8 kd vd)) k v).getD
+          (Gen8.from_bytes_mut (Imp.dflt kd vd) (s.image cfgU8 kd vd), none) = (s'.image cfgU8 kd vd, r)) ∧
+    (∃ s' r, Tree.Reach cfgU8 s' ∧
+      Gen8.remove (Imp.dflt kd vd) (Gen8.from_bytes_mut (Imp.dflt kd vd) (s.image cfgU8 kd vd)) k
+        = (s'.image cfgU8 kd vd, r)) := by
+  obtain ⟨s1, r1, h1, _, e1⟩ := Gen8.transition_insert kd vd s h k v
+  obtain ⟨s2, r2, h2, _, e2⟩ := Gen8.transition_remove kd vd s h k
+  exact ⟨⟨s1, r1, h1, e1⟩, ⟨s2, r2, h2, e2⟩⟩
 
 end Stevia.C10
